@@ -19,12 +19,10 @@ import (
 	"verif/work"
 )
 
-type FixPkg struct{ Path, Name string }
+type FixPkg = cfg.FixPkg
 
-// Fixture packages: identical self-identifying symbols in each (DESIGN 2.4).
-var FixturePkgs = []FixPkg{
-	{"fixt/pa", "pa"}, {"fixt/pb", "pb"}, {"fixt/deep/pa", "pa"}, {"fixt/x-y.v2", "xy"}, {"fixt/fmt", "fmt"}, {"fixt/os", "os"},
-}
+// FixturePkgs: see cfg.FixturePkgs.
+var FixturePkgs = cfg.FixturePkgs
 
 type D struct {
 	K     string `json:"k"`
@@ -196,12 +194,37 @@ func NewLab(w *work.WS) (*Lab, error) {
 	if err != nil {
 		return nil, err
 	}
+	helpers, err := w.HelpersVersion()
+	if err != nil {
+		return nil, err
+	}
+	sum, _ := os.ReadFile(filepath.Join(w.Repo, "go.sum"))
+	extra := ""
 	for _, p := range FixturePkgs {
 		dir := filepath.Join(w.Mod, strings.TrimPrefix(p.Path, "fixt/"))
+		if !strings.HasPrefix(p.Path, "fixt/") {
+			// a package of another module, replaced by a local directory (the two modules replace each other)
+			dir = filepath.Join(w.Dir, "ext", strings.ReplaceAll(p.Path, "/", "_"))
+			gm := "module " + p.Path + "\n\ngo 1.21\n\nrequire (\n\tfixt v0.0.0\n\tgithub.com/gontainer/gontainer-helpers/v3 " + helpers + "\n)\n\nreplace fixt => " + w.Mod + "\n"
+			if err := work.WriteFile(filepath.Join(dir, "go.mod"), []byte(gm)); err != nil {
+				return nil, err
+			}
+			_ = work.WriteFile(filepath.Join(dir, "go.sum"), sum)
+			extra += "\nrequire " + p.Path + " v0.0.0\n\nreplace " + p.Path + " => " + dir + "\n"
+		}
 		if err := work.WriteFile(filepath.Join(dir, "types.go"), []byte(instantiate(string(tt), p.Name, p.Path))); err != nil {
 			return nil, err
 		}
 		if err := work.WriteFile(filepath.Join(dir, "funcs.go"), []byte(instantiate(string(ft), p.Name, p.Path))); err != nil {
+			return nil, err
+		}
+	}
+	if extra != "" {
+		gm, err := os.ReadFile(filepath.Join(w.Mod, "go.mod"))
+		if err != nil {
+			return nil, err
+		}
+		if err := os.WriteFile(filepath.Join(w.Mod, "go.mod"), append(gm, []byte(extra)...), 0o644); err != nil {
 			return nil, err
 		}
 	}
